@@ -2,7 +2,7 @@
 import random
 from .. import core, sysgen, reader, gen
 
-MODULES = ['DsdVerif.Props.C16', 'DsdVerif.Props.PyReaderFns', 'DsdVerif.Props.PyReadLine', 'DsdVerif.Props.PyReadLine2']
+MODULES = ['DsdVerif.Props.C16', 'DsdVerif.Props.PyReaderFns', 'DsdVerif.Props.PyReadLine', 'DsdVerif.Props.PyReadLine2', 'DsdVerif.Props.PyReadLine3']
 GEN_FILES = ['Symbols', 'Grammars', 'PyReaderFns', 'GrammarUnits', 'PyReadLine']
 THEOREMS = ['Dsd.Symbols.no_unresolved_global', 'Dsd.C16.reader_never_faults', 'Dsd.C16.readLine_never_faults_fresh',
             'Dsd.C16.typed_lineOK', 'Dsd.C16.resolveKernel_ok', 'Dsd.C16.resolveKernel_total',
@@ -19,6 +19,8 @@ THEOREMS += ['Dsd.PyReaderFns.' + t for t in [
 THEOREMS += ['Dsd.PyReadLine.' + t for t in ['py_unconfigured_hands_back', 'py_dl_domain_eq_model', 'py_dl_domain_no_own_fault']]
 # read_pil_line: the sl-domain and composite-domain branches equal the reader model
 THEOREMS += ['Dsd.PyReadLine2.' + t for t in ['py_sl_domain_eq_model', 'py_composite_domain_eq_model', 'py_comprehension_is_listComp']]
+# read_pil_line: the resting-macrostate branch and the ignored-reaction case equal the reader model
+THEOREMS += ['Dsd.PyReadLine3.' + t for t in ['py_resting_macrostate_eq_model', 'py_ignored_reaction_hands_back_eq_model', 'py_try_keeps_world']]
 ASSUMPTIONS = [
     'static part: the global-name reference table of every function / method / lambda / comprehension / class body of the package is '
     'regenerated with symtable by translator/gen.py; a name bound anywhere at module level (incl. inside if/try, via import or import *) '
